@@ -97,6 +97,44 @@ def generate() -> None:
     body += "def reDigit (c : Char) : Bool := reDigitRanges.any fun (a, b) => a ≤ c.toNat && c.toNat ≤ b\n"
     body += "\nend Ptk.Gen.C03\n"
     G.write("C03Ansi.lean", body)
+    generate_codecs()
+
+
+SINGLE_BYTE = ["latin-1", "cp1252", "iso8859-15", "koi8-r", "ascii"]
+
+
+def generate_codecs() -> None:
+    """single-byte code pages of the running interpreter: for every byte the code point the
+    incremental decoder (errors='strict') yields, `none` where it raises (those bytes become lone
+    surrogates under surrogateescape); plus the defaults of the two constructors."""
+    import codecs
+    import inspect
+
+    from prompt_toolkit.input.posix_utils import PosixStdinReader
+
+    body = "namespace Ptk.Gen.C03\n\n"
+    body += "/-- (codec name, table byte -> code point; `none` = undecodable) -/\n"
+    body += "def codecs : List (String × List (Option Nat)) := [\n"
+    rows = []
+    for name in SINGLE_BYTE:
+        cls = codecs.getincrementaldecoder(name)
+        tbl = []
+        for b in range(256):
+            d = cls(errors="strict")
+            try:
+                t = d.decode(bytes([b]))
+                if len(t) != 1 or d.getstate()[0] != b"":
+                    raise TypeError(f"{name} is not a single-byte codec at byte {b}")
+                tbl.append(f"some {ord(t)}")
+            except UnicodeDecodeError:
+                tbl.append("none")
+        rows.append("  (" + lstr(name) + ", [" + ", ".join(tbl) + "])")
+    body += ",\n".join(rows) + "\n]\n\n"
+    body += "/-- `encoding=` default of `PosixStdinReader.__init__` -/\n"
+    body += "def readerEncoding : String := " + lstr(
+        inspect.signature(PosixStdinReader.__init__).parameters["encoding"].default) + "\n"
+    body += "\nend Ptk.Gen.C03\n"
+    G.write("C03Codecs.lean", body)
 
 
 if __name__ == "__main__":
